@@ -121,6 +121,7 @@ func NewPebbleScanner(dbPath string, opts PebbleScannerOptions) (*PebbleScanner,
 	if opts.ReadOnly {
 		pebbleOpts.ReadOnly = true
 	}
+	verifPebbleOptions(pebbleOpts)
 
 	// Critical Fix: PebbleDB Locking and Concurrency
 	// We implement a retry loop here because automated pipelines or rapid restarts
